@@ -334,6 +334,18 @@ impl MutableArchive {
         // Check if we're updating a special file (listfile/attributes)
         let is_internal_update = archive_name == "(listfile)" || archive_name == "(attributes)";
 
+        // A new name needs a free hash slot; refuse before anything is changed when the
+        // table has none (a replaced name reuses the slot it frees)
+        if self.find_file_entry(&archive_name)?.is_none()
+            && let Some(hash_table) = &self.hash_table
+            && !hash_table
+                .entries()
+                .iter()
+                .any(|e| e.is_empty() || e.is_deleted())
+        {
+            return Err(Error::hash_table("Hash table is full"));
+        }
+
         // Check if file exists and if we should replace it
         let existing_block_index =
             if let Some((hash_index, entry)) = self.find_file_entry(&archive_name)? {
@@ -1079,8 +1091,9 @@ impl MutableArchive {
         let table_size = hash_table.size() as u32;
         let mut index = table_offset & (table_size - 1);
 
-        // Linear probing to find empty or deleted slot
-        loop {
+        // Linear probing to find empty or deleted slot; one lap at most, a table without
+        // a free slot is reported instead of probing forever
+        for _ in 0..table_size {
             let entry = hash_table.get_mut(index as usize).ok_or_else(|| {
                 Error::InvalidFormat("Hash table index out of bounds".to_string())
             })?;
@@ -1094,14 +1107,14 @@ impl MutableArchive {
                     platform: 0, // Always 0 - platform codes are vestigial
                     block_index,
                 };
-                break;
+                return Ok(());
             }
 
             // Move to next slot
             index = (index + 1) & (table_size - 1);
         }
 
-        Ok(())
+        Err(Error::hash_table("Hash table is full"))
     }
 
     /// Update the (listfile) with a new filename
